@@ -178,6 +178,55 @@ def partialTrace (t : Tab) (keep : List Nat) (os : List Bool) : Except Err Tab :
       | .ok t' => go t'.norm rest (if random then os.tail else os)
   go t removal os
 
+/-! ### the tableau API as one operation type (what `tab.run` of the driver executes) -/
+
+inductive Op where
+  | h (q : Nat) | s (q : Nat) | sdg (q : Nat) | x (q : Nat) | y (q : Nat) | z (q : Nat)
+  | cnot (c t : Nat) | cz (c t : Nat) | swap (a b : Nat)
+  | meas (q : Nat) (o : Bool)
+  | resetZ (q : Nat) (intended o : Bool) | resetX (q : Nat) (intended o : Bool) | resetY (q : Nat) (intended o : Bool)
+  | insert (p : Nat) | add
+  | remove (q : Nat) (o : Bool)
+  | ptrace (keep : List Nat) (os : List Bool)
+
+/-- one API call with the Python's `assert`s; second component: measurement outcome and "was random" -/
+def applyOp (t : Tab) : Op → Except Err (Tab × Option (Bool × Bool))
+  | .h q => if q < t.n then .ok (t.hGate q, none) else .error .assertion
+  | .s q => if q < t.n then .ok (t.sGate q, none) else .error .assertion
+  | .sdg q => if q < t.n then .ok (t.sdgGate q, none) else .error .assertion
+  | .x q => if q < t.n then .ok (t.xGate q, none) else .error .assertion
+  | .y q => if q < t.n then .ok (t.yGate q, none) else .error .assertion
+  | .z q => if q < t.n then .ok (t.zGate q, none) else .error .assertion
+  | .cnot c tg => if c < t.n ∧ tg < t.n then .ok (t.cnotGate c tg, none) else .error .assertion
+  | .cz c tg => if c < t.n ∧ tg < t.n then .ok (t.czGate c tg, none) else .error .assertion
+  | .swap a b => if a < t.n ∧ b < t.n then .ok (t.swapGate a b, none) else .error .assertion
+  | .meas q o =>
+    if q < t.n then
+      let (t', out, p) := t.zMeasure q o
+      .ok (t', some (out, p ≠ 0))
+    else .error .assertion
+  | .resetZ q i o => if q < t.n then .ok (t.resetZ q i o, none) else .error .assertion
+  | .resetX q i o => if q < t.n then .ok (t.resetX q i o, none) else .error .assertion
+  | .resetY q i o => if q < t.n then .ok (t.resetY q i o, none) else .error .assertion
+  | .insert p => if p ≤ t.n then .ok (t.insertQubit p, none) else .error .assertion
+  | .add => .ok (t.addQubit, none)
+  | .remove q o =>
+    match t.removeQubit? q o with
+    | .ok t' => .ok (t', none)
+    | .error e => .error e
+  | .ptrace keep os =>
+    match t.partialTrace keep os with
+    | .ok t' => .ok (t', none)
+    | .error e => .error e
+
+/-- a history of API calls; stops at the first error like the Python would -/
+def runOps (t : Tab) : List Op → Except Err Tab
+  | [] => .ok t
+  | op :: rest =>
+    match t.applyOp op with
+    | .ok (t', _) => runOps t' rest
+    | .error e => .error e
+
 /-- stabilizer half as a list of rows -/
 def stabRows (t : Tab) : List PRow := (List.range t.n).map fun i => t.row (i + t.n)
 
